@@ -1,5 +1,5 @@
 """C17 - every advertised time variable has exactly one sample per instant."""
-from .common import View, Violation, close
+from .common import View, Violation, close, INTERNAL_ERRORS
 from .. import si
 
 PROP = 'C17'
@@ -32,6 +32,12 @@ def check(scn, H, view=None):
                 ok_so_far = False        # a run that raised is not judged
                 if rec['op'] == 'reset':
                     st['reset_raised'] += 1
+                    if rec['exc'][0] in INTERNAL_ERRORS and \
+                            rec.get('n_before', 0) > 0:
+                        # reset() of a simulated powertrain that dies inside
+                        # the library leaves it half reset
+                        viol(f"reset-fails/{rec['exc'][0]}",
+                             message=rec['exc'][1], op_index=rec['i'])
                 break
             d = rec['dump']
             n = d['n']
